@@ -6,6 +6,76 @@ use vcore::run::{CaseResult, Failure, Obs};
 use vcore::src::{fnv, Src};
 use zbus::message::{Message, PrimaryHeader, Type};
 
+fn too_deep() -> zbus::zvariant::Value<'static> {
+    let mut v = zbus::zvariant::Value::U8(1);
+    for _ in 0..70 {
+        v = zbus::zvariant::Value::Value(Box::new(v));
+    }
+    v
+}
+
+/// The wrap under contention: persistent threads, released together again and again with the
+/// counter placed a few draws before the wrap, each drawing a handful of serials — the instant at
+/// which one thread draws the zero while the others draw around it.
+pub fn c15_wrap_race(rounds: u64, obs: &mut Obs) -> Result<(), Failure> {
+    use std::sync::atomic::{AtomicBool, Ordering};
+    use std::sync::Mutex;
+    let threads = 8usize;
+    let per = 5usize;
+    let start_b = Arc::new(Barrier::new(threads + 1));
+    let end_b = Arc::new(Barrier::new(threads + 1));
+    let stop = Arc::new(AtomicBool::new(false));
+    let out: Arc<Vec<Mutex<Vec<u32>>>> = Arc::new((0..threads).map(|_| Mutex::new(vec![])).collect());
+    let mut handles = vec![];
+    for t in 0..threads {
+        let (sb, eb, st, o) = (start_b.clone(), end_b.clone(), stop.clone(), out.clone());
+        handles.push(std::thread::spawn(move || loop {
+            sb.wait();
+            if st.load(Ordering::SeqCst) {
+                return;
+            }
+            let mut v = Vec::with_capacity(per);
+            for i in 0..per {
+                v.push(if (t + i) % 2 == 0 { PrimaryHeader::new(Type::Signal, 0).serial_num().get() } else { Message::method_call("/", "M").unwrap().build(&()).unwrap().primary_header().serial_num().get() });
+            }
+            *o[t].lock().unwrap() = v;
+            eb.wait();
+        }));
+    }
+    let mut fail = None;
+    for r in 0..rounds {
+        let start = u32::MAX - (r % 7) as u32;
+        zbus::message::__verif_set_next_serial(start);
+        start_b.wait();
+        end_b.wait();
+        let mut all: Vec<u32> = out.iter().flat_map(|m| m.lock().unwrap().clone()).collect();
+        all.sort_unstable();
+        if all.first() == Some(&0) {
+            fail = Some(format!("a message got serial 0 in round {r} ({threads} threads x {per} draws released together, counter at {start})"));
+            break;
+        }
+        if let Some(w) = all.windows(2).find(|w| w[0] == w[1]) {
+            fail = Some(format!("serial {} was handed out twice in round {r} ({threads} threads x {per} draws released together, counter at {start}): {all:?}", w[0]));
+            break;
+        }
+        if r < 3 {
+            obs.sample("wrap-race", || format!("round {r}: counter at {start}, {threads} threads x {per} draws -> {all:?}"));
+        }
+        obs.evaluations += 1;
+        obs.nontrivial(fnv(format!("{r}{all:?}").as_bytes()));
+    }
+    stop.store(true, Ordering::SeqCst);
+    start_b.wait();
+    for h in handles {
+        let _ = h.join();
+    }
+    obs.count("wrap-race-rounds", rounds);
+    match fail {
+        Some(m) => Err(Failure::new(m)),
+        None => Ok(()),
+    }
+}
+
 pub fn c15_case(src: &mut Src, obs: &mut Obs) -> CaseResult {
     let threads = 2 + src.below(15);
     let per = 200 + src.below(3000);
@@ -25,10 +95,18 @@ pub fn c15_case(src: &mut Src, obs: &mut Obs) -> CaseResult {
     for t in 0..threads {
         let b = barrier.clone();
         let kind = (t + src.below(3)) % 3;
+        // some threads also attempt builds that fail (a body nested beyond the limits): a serial
+        // drawn for a message that is never built must not come back into circulation
+        let failing = src.chance(90);
         handles.push(std::thread::spawn(move || {
             let mut v = Vec::with_capacity(per);
+            let deep = too_deep();
             b.wait();
             for i in 0..per {
+                if failing && i % 5 == 2 {
+                    let r = Message::method_call("/", "M").unwrap().build(&deep);
+                    assert!(r.is_err(), "harness: a body nested 70 deep was accepted");
+                }
                 let s = match (kind + i) % 3 {
                     0 => PrimaryHeader::new(Type::Signal, 0).serial_num().get(),
                     1 => Message::method_call("/", "M").unwrap().build(&()).unwrap().primary_header().serial_num().get(),
